@@ -114,6 +114,22 @@ Theorem C08_fill_out : forall (A : Type) (a : array2d A) x1 y1 x2 y2 (v : A),
 Proof. exact @fill_out. Qed.
 Print Assumptions C08_fill_out.
 
+(* The property as one statement: for EVERY program of mutating calls (Set, Fill, writes
+   through Row and RowSpan windows; in or out of bounds, any corners, any spans, a
+   recovered panic does not stop the program) on a well-formed array that holds the
+   cells of [g], the array at the end is well-formed, has the same shape, holds exactly
+   the cells the cell model [ref_calls] computes on the function [g] (independent cells:
+   [upd] changes one coordinate, Fill the inclusive rectangle, a panicking call nothing),
+   and the same calls panicked. *)
+Theorem C08_cell_model : forall (A : Type) (ks : list (call A)) (a : array2d A) (g : grid A),
+  wf a -> agrees a g ->
+  wf (fst (run_calls a ks)) /\
+  width (fst (run_calls a ks)) = width a /\ height (fst (run_calls a ks)) = height a /\
+  agrees (fst (run_calls a ks)) (fst (ref_calls (width a) (height a) g ks)) /\
+  snd (run_calls a ks) = snd (ref_calls (width a) (height a) g ks).
+Proof. exact @run_calls_refine. Qed.
+Print Assumptions C08_cell_model.
+
 (* Constructors: well-formed, of the requested shape, cells as the cell model says. *)
 Theorem C08_new2d : forall (A : Type) (zero : A) w h, 0 <= w -> 0 <= h ->
   exists a, new2d zero w h = Ok a /\ wf a /\ width a = w /\ height a = h /\
@@ -172,6 +188,15 @@ Example C08_example :
   new2d_filled 0 3 2 5 = Ok (Arr 3 2 [5;5;5;5;5;5]) /\
   string_rows a = Ok [[1;2;3];[4;5;6]].
 Proof. vm_compute. repeat split; try discriminate; reflexivity. Qed.
+
+Example C08_agrees_example : wf (Arr 3 2 [1;2;3;4;5;6]) /\ agrees (Arr 3 2 [1;2;3;4;5;6]) (fun x y => 1 + x + y * 3).
+Proof. exact (conj (conj (Z.le_0_pos 3) (conj (Z.le_0_pos 2) eq_refl)) agrees_example). Qed.
+
+Example C08_cell_model_example :
+  run_calls (Arr 3 2 [1;2;3;4;5;6])
+    [KSet 3 0 9; KFill 2 1 1 0 7; KRowWrite 1 0 8; KSpanWrite 1 2 0 1 5; KSpanWrite 2 1 0 0 5; KRowWrite 2 0 8]
+  = (Arr 3 2 [1;7;5;8;7;7], [true; false; false; false; true; true]).
+Proof. vm_compute. reflexivity. Qed.
 
 (* The correspondence check itself (Arrays/Array2DCheck.v, evaluated by bin/check on the
    harness's observations of the real code) accepts a correct observation and rejects
